@@ -59,6 +59,7 @@ type driver struct {
 	pts      map[string]int64
 	storeRun bool
 	replay   bool
+	bin      string // private copy of the running binary, used for all children
 }
 
 func (d *driver) child(logPath string, env []string, args ...string) ([]byte, int, bool) {
@@ -67,7 +68,7 @@ func (d *driver) child(logPath string, env []string, args ...string) ([]byte, in
 		f.Close()
 	}
 	env = append([]string{"GOMAXPROCS=2"}, env...)
-	return vf.RunWorkerOnce(false, "c08", args, env, logPath, childTimeout)
+	return vf.RunOnce(d.bin, append([]string{"worker", "c08"}, args...), env, logPath, childTimeout)
 }
 
 func parseJSON[T any](out []byte) (T, bool) {
@@ -145,6 +146,9 @@ func (d *driver) judge(ir *inputRun, raft, scratch, logp string) (key, what stri
 		return "inconclusive", "final start timed out", 0
 	}
 	res, jok := parseJSON[UpResult](out)
+	if code == 2 && strings.Contains(c07.Tail(logp, 300), "unknown worker") {
+		return "inconclusive", "child binary has no c08 worker", 0
+	}
 	if code != 0 || !jok {
 		return "restart-dies:state=" + before, fmt.Sprintf("the starting process exited with code %d (state before: %s): %s", code, before, c07.Tail(logp, 500)), 0
 	}
@@ -454,6 +458,13 @@ func run(c *vf.Ctx) {
 	root := vf.TempDir("c08")
 	defer os.RemoveAll(root)
 	d := &driver{c: c, pts: map[string]int64{}, storeRun: !c.Quick()}
+	bin, err := c07.PrivateBin(root)
+	if err != nil {
+		c.Logf("cannot copy own binary: %v", err)
+		c.Inconclusive("cannot copy own binary")
+		return
+	}
+	d.bin = bin
 
 	if c.ReplayFile != "" {
 		var rp struct {
